@@ -6,27 +6,27 @@ HOOK_COMMITS = subprocess.run(["git","-C","/repo","log","--format=%H %s","--grep
 
 CHECKS = {
  "C02": ("fault_enumeration","3/C02",
-   "Hostile byte strings (random up to 4 KiB, structured mutations of valid frames, the three 64-bit length fields over boundary classes including wrapping and saturating sums) are fed to Header::decode, Message/MessageView::from_slice(_exact), read_message, read_message_into and the async twins through a reader seam that chunks, injects EINTR / spurious Pending and truncates at a seeded byte position; a hostile peer on the simulated network sends the same bytes to the real blocking Server (then a healthy connection must still be served) and, as a server, to the real blocking Client with calls in flight. Oracle: the independent codec's verdict in 128-bit arithmetic (acceptance, returned payload bytes, bytes consumed), catch_unwind for panics, and worker-process death attributed to the journalled case for aborts.",
-   "declared sizes for stream readers are <= 16 MiB or >= 2^62 for the frame and for each payload (never in between), workers run under RLIMIT_AS so an impossible allocation fails the same way everywhere; async TCP / WebSocket endpoints are covered by their own families.",
+   "Hostile byte strings (random up to 4 KiB, structured mutations of valid frames, the three 64-bit length fields over boundary classes including wrapping and saturating sums) are fed to Header::decode, Message/MessageView::from_slice(_exact), read_message, read_message_into and the async twins through a reader seam that chunks, injects EINTR / spurious Pending and truncates at a seeded byte position; a hostile peer on the simulated network sends the same bytes to the real blocking Server and the real AsyncServer (then a healthy connection must still be served) and, as a server, to the real blocking Client and the real AsyncClient with calls in flight. Oracle: the independent codec's verdict in 128-bit arithmetic (acceptance, returned payload bytes, bytes consumed), catch_unwind for panics, and worker-process death attributed to the journalled case for aborts.",
+   "declared sizes for stream readers are <= 16 MiB or >= 2^62 for the frame and for each payload (never in between), workers run under RLIMIT_AS so an impossible allocation fails the same way everywhere; panics that the tokio runtime catches inside spawned tasks are journalled by the panic hook and reported.",
    "deterministic simulation: hostile-peer + faulting-reader fault injection, independent-codec oracle, abort detection by process journal"),
  "C03": ("exploration","3/C03",
-   "Pipelined request sequences (1-64 requests: valid/invalid version, every query-format code, non-UTF-8 queries, registered/unregistered/mounted paths, every built-in handler kind incl. the _blocking and middleware-wrapped ones, every body-format code with well-formed, malformed and empty bodies, notify 0/1) are sent by a raw scripted client over the simulated network (seeded chunking, delays, short I/O, thread schedules) and compared with a routing/dispatch reference model: exactly one response per non-notify request in arrival order, none per notify, error code, echoed (or handler-chosen) query, body for deterministic handlers, user closure and middleware invocation counts.",
+   "Pipelined request sequences (1-64 requests: valid/invalid version, every query-format code, non-UTF-8 queries, registered/unregistered/mounted paths, every built-in handler kind incl. the _blocking and middleware-wrapped ones, every body-format code with well-formed, malformed and empty bodies, notify 0/1) are sent by a raw scripted client over the simulated network (seeded chunking, delays, short I/O, thread schedules) to the real blocking Server and the real AsyncServer (paused-clock tokio runtime) and compared with a routing/dispatch reference model: exactly one response per non-notify request in arrival order, none per notify, error code, echoed (or handler-chosen) query, body for deterministic handlers, user closure and middleware invocation counts.",
    "handlers used for comparison are deterministic; notify flags are 0 or 1; registry/struct mounts are modelled only as far as C03 states (response, id, query, error class).",
    "deterministic simulation: seeded pipelined histories vs. routing reference model"),
  "C04": ("exploration","3/C04",
-   "1-64 concurrent callers and batch_json calls on clones of one real client against a scripted server on the simulated network that answers in seeded (permuted) order and injects unknown-id and duplicated response frames; every scheduling point of register/write/receive/match/deliver is a seeded kernel decision, socket I/O is chunked, delayed and interrupted (short reads/writes, EINTR). Each call must return its own token, batches stay positionally aligned, request ids on a connection are distinct, nothing stays pending.",
+   "1-64 concurrent callers (threads on the blocking Client, tasks on the AsyncClient) and batch_json calls on clones of one real client against a scripted server on the simulated network that answers in seeded (permuted) order and injects unknown-id and duplicated response frames; every scheduling point of register/write/receive/match/deliver is a seeded kernel decision, socket I/O is chunked, delayed and interrupted (short reads/writes, EINTR). Each call must return its own token, batches stay positionally aligned, request ids on a connection are distinct, nothing stays pending.",
    "simulated socket semantics (DESIGN.md 2.2); scripted peer written with the harness's independent codec.",
    "deterministic simulation: seeded schedules + scripted adversarial peer, per-call token oracle"),
  "C05": ("fault_enumeration","3/C05",
-   "Up to 32 concurrent writers per connection with payloads straddling the drawn socket capacity and BufWriter size, peer stalls (bounded and permanent), configured write timeouts, short writes and EINTR; the wire tap of everything the endpoint wrote must be complete frames with self-describing bodies, optionally followed by a prefix of one frame and then nothing.",
+   "Up to 32 concurrent writers per connection (blocking Client, AsyncClient, blocking Server, AsyncServer) with payloads straddling the drawn socket capacity and BufWriter size, peer stalls (bounded and permanent), configured write timeouts, short writes, EINTR / spurious Pending, and callers abandoning an async call mid-send (future dropped at its k-th poll, or by an enclosing timeout); the wire tap of everything the endpoint wrote must be complete frames with self-describing bodies, optionally followed by a prefix of one frame and then nothing.",
    "wire-tap oracle uses patterned bodies (a body byte is a function of the writer and offset) so foreign bytes inside a frame are recognisable; simulated socket semantics.",
    "deterministic simulation: fault injection (stall, write timeout, short I/O) + wire-tap stream-shape oracle"),
  "C06": ("fault_enumeration","3/C06",
-   "0-16 calls in flight (with and without per-call timeouts) while the scripted server closes (FIN), resets, sends each kind of malformed header or cuts a response at each byte-offset class, before/after reading requests; timeouts racing response delivery at deadline-1ms..+50ms on the simulated clock. Every in-flight and later call must return (a hang is a kernel deadlock report), late responses are dropped, unrelated calls get their own reply, no pending entry remains.",
+   "0-16 calls in flight on the blocking Client and the AsyncClient (with and without per-call timeouts) while the scripted server closes (FIN), resets, sends each kind of malformed header or cuts a response at each byte-offset class, before/after reading requests; timeouts racing response delivery at deadline-1ms..+50ms on the simulated clock; on the AsyncClient additionally cancellation of a call at its k-th poll (k = 1..6) or by an enclosing timeout. Every in-flight and later call must return (a hang is a kernel deadlock report), late responses are dropped, unrelated calls get their own reply, no pending entry remains.",
    "the peer always drains what the client writes (peer stalls belong to C05); simulated socket semantics.",
    "deterministic simulation: connection-fault enumeration x seeded schedules, deadlock detection on the simulated clock"),
  "C19": ("fault_enumeration","3/C19",
-   "Real fleet (retry delay and call timeouts on the simulated clock) against scripted nodes that emit per-attempt outcome sequences over {refused, accepted-then-closed (FIN or RST), closed-while-idle, silent-until-timeout, malformed reply, application error, success} of length up to max_attempts+2 for max_attempts 1..3, then turn healthy; both orders of 'reader notices the close' vs 'caller writes' come from the seeded scheduler. Oracle from the node's own log: requests per call <= max_attempts, no retry after a reply, the reply (or an error) is what the call returns, and a healthy-phase call succeeds (not wedged). Broadcasts over tag subsets of up to 4 nodes address exactly the nodes carrying all tags, one result each.",
+   "Real Fleet and AsyncFleet (retry delay and call timeouts on the simulated clock) against scripted nodes that emit per-attempt outcome sequences over {refused, accepted-then-closed (FIN or RST), closed-while-idle, silent-until-timeout, malformed reply, application error, success} of length up to max_attempts+2 for max_attempts 1..3, then turn healthy; both orders of 'reader notices the close' vs 'caller writes' come from the seeded scheduler. Oracle from the node's own log: requests per call <= max_attempts, no retry after a reply, the reply (or an error) is what the call returns, and a healthy-phase call succeeds (not wedged). Broadcasts over tag subsets of up to 4 nodes address exactly the nodes carrying all tags, one result each.",
    "simulated socket semantics (write after local shutdown = BrokenPipe, connect without listener = ConnectionRefused, both validated against Linux); a malformed reply may or may not be retried (the property leaves it open) but must not wedge the node.",
    "deterministic simulation: scripted fault sequences x seeded schedules, node-log oracle, recovery (liveness) check after faults stop"),
  "C09": ("exploration","3/C09",
